@@ -187,7 +187,7 @@ def _fault_values(rng: random.Random, kind: str, width: int, img: bytes, off: in
 def _cue_faults(rng: random.Random, text: str) -> str:
     lines = text.split("\n")
     for _ in range(rng.randint(1, 3)):
-        k = weighted(rng, [("drop", 3), ("dup", 2), ("huge", 3), ("nofile", 1), ("garbage", 2), ("mode", 2), ("binary", 1), ("many", 1)])
+        k = weighted(rng, [("drop", 3), ("dup", 2), ("huge", 3), ("nofile", 1), ("garbage", 2), ("mode", 2), ("binary", 1), ("many", 1), ("blank", 4)])
         i = rng.randrange(len(lines)) if lines else 0
         if k == "drop" and lines:
             del lines[i]
@@ -202,6 +202,17 @@ def _cue_faults(rng: random.Random, text: str) -> str:
             lines.insert(i, "".join(chr(rng.randint(32, 126)) for _ in range(rng.randint(1, 200))))
         elif k == "mode" and lines:
             lines = [l.replace("AUDIO", rng.choice(["MODE1/2352", "MODE1/2048", "MODE2/2336", "CDG", ""])) if "TRACK" in l and rng.random() < 0.5 else l for l in lines]
+        elif k == "blank":
+            where = rng.choice(["end", "end", "start", "middle", "everywhere"])
+            blank = rng.choice(["", "   ", "\t", " \t "])
+            if where == "end":
+                lines += [blank] * rng.randint(1, 3)
+            elif where == "start":
+                lines = [blank] * rng.randint(1, 3) + lines
+            elif where == "middle":
+                lines.insert(i, blank)
+            else:
+                lines = [x for l in lines for x in (l, blank)]
         elif k == "binary":
             lines.insert(i, "\x00\x01\x02")
         elif k == "many":
